@@ -11,6 +11,7 @@ import (
 	"sort"
 	"strings"
 	"sync"
+	"time"
 
 	gonnx "github.com/advancedclimatesystems/gonnx"
 	"github.com/advancedclimatesystems/gonnx/onnx"
@@ -566,9 +567,10 @@ func c17ColdMain(name, mode string) {
 		os.Exit(3)
 	}
 	var v *hx.Violation
-	if mode == "load" {
+	switch mode {
+	case "load":
 		v = loadStress(subj, 16, 2)
-	} else {
+	default:
 		v = stressPass(subj, 16, 2)
 	}
 	if v != nil {
@@ -578,32 +580,39 @@ func c17ColdMain(name, mode string) {
 	fmt.Println("COLD-OK")
 }
 
-// coldRun executes one cold-start process; returns "" when clean, else a description.
+// coldRun executes one cold-start process; returns "" when clean, else a description. Only symptoms that come from
+// the library count: a result that differs (COLD-VIOLATION line printed by the child) or a Go runtime crash of the
+// child ("fatal error:" / "panic:" with its message). A child that could not be started, was killed from outside
+// (memory pressure, signals) or ended without either symptom is harness trouble: it is retried and never reported.
 func coldRun(name, mode string) string {
 	exe, err := os.Executable()
 	if err != nil {
 		return ""
 	}
-	cmd := exec.Command(exe, "c17-cold", name, mode)
-	out, err := cmd.CombinedOutput()
-	text := string(out)
-	if err == nil && strings.Contains(text, "COLD-OK") {
-		return ""
-	}
-	if strings.Contains(text, "COLD-ERROR") {
-		hx.HarnessError("cold-start process for %s: %s", name, truncateS(text, 300))
-	}
-	for _, l := range strings.Split(text, "\n") {
-		if strings.HasPrefix(l, "COLD-VIOLATION") {
-			return l
+	for attempt := 0; attempt < 3; attempt++ {
+		cmd := exec.Command(exe, "c17-cold", name, mode)
+		out, err := cmd.CombinedOutput()
+		text := string(out)
+		if err == nil && strings.Contains(text, "COLD-OK") {
+			return ""
 		}
-	}
-	for _, l := range strings.Split(text, "\n") {
-		if strings.HasPrefix(l, "fatal error:") || strings.HasPrefix(l, "panic:") {
-			return "the process crashed: " + l + " :: " + gonnxFrames(text)
+		if strings.Contains(text, "COLD-ERROR") {
+			hx.HarnessError("cold-start process for %s: %s", name, truncateS(text, 300))
 		}
+		for _, l := range strings.Split(text, "\n") {
+			if strings.HasPrefix(l, "COLD-VIOLATION") {
+				return l
+			}
+		}
+		for _, l := range strings.Split(text, "\n") {
+			if (strings.HasPrefix(l, "fatal error:") || strings.HasPrefix(l, "panic:")) && !strings.Contains(l, "out of memory") && !strings.Contains(l, "newosproc") && !strings.Contains(l, "cannot allocate") {
+				return "the process crashed: " + l + " :: " + gonnxFrames(text)
+			}
+		}
+		// no library symptom: environment trouble (could not start, killed, resource exhaustion) - try again
+		time.Sleep(time.Duration(200*(attempt+1)) * time.Millisecond)
 	}
-	return fmt.Sprintf("the process failed (%v): %s", err, truncateS(text, 300))
+	return ""
 }
 
 func init() {
